@@ -152,4 +152,6 @@ def check_import_closure(rep, ix, rule, roots):
                    found='resolved' if ok else 'no such module or name', required='an existing module-level name',
                    module=mod, nontrivial=not ok)
     rep.info(f'R-IMP: import closure of {roots}: {len(mods)} modules, {n_np} numpy reads, {n_int} internal imports')
+    # smallest closure confirmed by hand (DAT reader) has 20 obligations
+    rep.floor(rule, max(rep.floors.get(rule, 0), 15))
     return mods
